@@ -375,7 +375,7 @@ META = {
                  "model-checked by TLC; every generated row parsed by the real cfgparser.Read in a child process under a "
                  "memory cap and watchdog; recorded outcomes and trees evaluated by TLC against CfgSyntaxTrace.tla",
     "text": "Bounded exploration of a model-generated case space: TLC enumerates all documents of <= 2 grammar gadgets "
-            "(56 gadgets incl. breakages, macros, snippets/imports forward/backward/self, env placeholders; deep nesting "
+            "(63 gadgets incl. breakages, macros, snippets/imports forward/backward/self, env placeholders; deep nesting "
             "and import ladders alone) in 3 (quick) / 9 (thorough) rendering styles, all single-piece mutations of the "
             "one-gadget documents, every string over an 18-class byte alphabet up to length 3 (quick) / 4 (thorough), the "
             "shipped files, plus seeded simulation beyond those bounds; it checks that the documented rule satisfies the "
